@@ -413,7 +413,7 @@ def check_tie(pid, tie, ob, modules):
         tie_mods.append(m)
         f = LEAN / (m.replace(".", "/") + ".lean")
         files.append(f)
-        todo += re.findall(r"^import (PyresampleModel\.Props\.Tie\w*)", f.read_text(), flags=re.M)
+        todo += re.findall(r"^import (PyresampleModel\.Props\.(?:Tie|Code)\w*)", f.read_text(), flags=re.M)
     hits = lean_scan(files)
     if hits:
         ob["scan_hits"] += hits
